@@ -278,4 +278,421 @@ theorem relax_nonjump (v : Ver) (instrs : List Instr) (starts : List Nat) : ∀ 
       subst h
       exact hstep
 
+/-! ### termination of the loop -/
+
+/-- `(prefixSums X a)[s]`, 0 outside -/
+def psum (X : List Nat) (a s : Nat) : Nat := (prefixSums X a).getD s 0
+
+theorem prefixSums_length : ∀ (X : List Nat) (a : Nat), (prefixSums X a).length = X.length + 1 := by
+  intro X; induction X with
+  | nil => intro a; simp [prefixSums]
+  | cons x X ih => intro a; simp [prefixSums, ih]
+
+@[simp] theorem psum_zero (X : List Nat) (a : Nat) : psum X a 0 = a := by
+  cases X <;> simp [psum, prefixSums]
+@[simp] theorem psum_succ (x : Nat) (X : List Nat) (a s : Nat) : psum (x :: X) a (s + 1) = psum X (a + x) s := by
+  simp [psum, prefixSums]
+theorem psum_nil_succ (a s : Nat) : psum [] a (s + 1) = 0 := by simp [psum, prefixSums]
+
+theorem psum_out : ∀ (X : List Nat) (a s : Nat), X.length < s → psum X a s = 0 := by
+  intro X; induction X with
+  | nil => intro a s h; cases s with
+    | zero => simp at h
+    | succ s => exact psum_nil_succ a s
+  | cons x X ih => intro a s h; cases s with
+    | zero => simp at h
+    | succ s => simp only [psum_succ]; exact ih _ _ (by simpa using h)
+
+theorem psum_ge : ∀ (X : List Nat) (a s : Nat), s ≤ X.length → a ≤ psum X a s := by
+  intro X; induction X with
+  | nil => intro a s h; simp at h; subst h; simp
+  | cons x X ih => intro a s h; cases s with
+    | zero => simp
+    | succ s => simp only [psum_succ]; have := ih (a + x) s (by simpa using h); omega
+
+/-- widths are at least one code unit: the layout is strictly increasing -/
+theorem psum_strict : ∀ (X : List Nat) (a c s : Nat), (∀ x ∈ X, 1 ≤ x) → c < s → s ≤ X.length → psum X a c < psum X a s := by
+  intro X; induction X with
+  | nil => intro a c s _ h1 h2; simp at h2; omega
+  | cons x X ih =>
+    intro a c s hx h1 h2
+    cases s with
+    | zero => omega
+    | succ s =>
+      have hx1 : 1 ≤ x := hx x (by simp)
+      have hX : ∀ y ∈ X, 1 ≤ y := fun y hy => hx y (by simp [hy])
+      cases c with
+      | zero =>
+        simp only [psum_zero, psum_succ]
+        have := psum_ge X (a + x) s (by simpa using h2)
+        omega
+      | succ c =>
+        simp only [psum_succ]
+        exact ih (a + x) c s hX (by omega) (by simpa using h2)
+
+/-- pointwise `≤` of two lists of the same length -/
+inductive LeL : List Nat → List Nat → Prop
+  | nil : LeL [] []
+  | cons {x y : Nat} {X Y : List Nat} : x ≤ y → LeL X Y → LeL (x :: X) (y :: Y)
+
+theorem psum_excess : ∀ (X Y : List Nat), LeL X Y → ∀ (a b s : Nat), s ≤ X.length →
+    (psum X a s : Int) - a ≤ (psum Y b s : Int) - b := by
+  intro X Y h
+  induction h with
+  | nil => intro a b s hs; simp at hs; subst hs; simp
+  | @cons x y X Y hxy _ ih =>
+    intro a b s hs
+    cases s with
+    | zero => simp
+    | succ s =>
+      simp only [psum_succ]
+      have := ih (a + x) (b + y) s (by simpa using hs)
+      omega
+
+theorem psum_diff_mono : ∀ (X Y : List Nat), LeL X Y → ∀ (a b c s : Nat), c ≤ s → s ≤ X.length →
+    (psum X a s : Int) - psum X a c ≤ (psum Y b s : Int) - psum Y b c := by
+  intro X Y h
+  induction h with
+  | nil => intro a b c s h1 h2; simp at h2; subst h2; have : c = 0 := by omega
+           subst this; simp
+  | @cons x y X Y hxy hXY ih =>
+    intro a b c s h1 h2
+    cases s with
+    | zero => have : c = 0 := by omega
+              subst this; simp
+    | succ s =>
+      cases c with
+      | zero =>
+        simp only [psum_zero]
+        exact psum_excess (x :: X) (y :: Y) (LeL.cons hxy hXY) a b (s + 1) h2
+      | succ c =>
+        simp only [psum_succ]
+        exact ih _ _ c s (by omega) (by simpa using h2)
+
+theorem forall₂_length {l1 l2 : List Nat} (h : LeL l1 l2) : l1.length = l2.length := by
+  induction h with
+  | nil => rfl
+  | cons _ _ ih => simp [ih]
+
+/-- what the per-jump monotonicity needs from two layouts -/
+structure OffsMono (A B : List Nat) : Prop where
+  abs : ∀ s, A.getD s 0 ≤ B.getD s 0
+  rel : ∀ s c, 1 ≤ c → c < A.length →
+    (((A.getD s 0 : Int) - A.getD c 0 < 0) ∧ ((B.getD s 0 : Int) - B.getD c 0 < 0)) ∨
+    ((0 : Int) ≤ (A.getD s 0 : Int) - A.getD c 0 ∧ (A.getD s 0 : Int) - A.getD c 0 ≤ (B.getD s 0 : Int) - B.getD c 0)
+
+theorem offsMono_prefixSums (X Y : List Nat) (h : LeL X Y) (hx : ∀ x ∈ X, 1 ≤ x) (hy : ∀ y ∈ Y, 1 ≤ y) :
+    OffsMono (prefixSums X 0) (prefixSums Y 0) := by
+  have hlen := forall₂_length h
+  constructor
+  · intro s
+    show psum X 0 s ≤ psum Y 0 s
+    by_cases hs : s ≤ X.length
+    · have := psum_excess X Y h 0 0 s hs; omega
+    · rw [psum_out X 0 s (by omega), psum_out Y 0 s (by omega)]; omega
+  · intro s c hc1 hc2
+    rw [prefixSums_length] at hc2
+    show ((psum X 0 s : Int) - psum X 0 c < 0 ∧ (psum Y 0 s : Int) - psum Y 0 c < 0) ∨
+      ((0 : Int) ≤ (psum X 0 s : Int) - psum X 0 c ∧ (psum X 0 s : Int) - psum X 0 c ≤ (psum Y 0 s : Int) - psum Y 0 c)
+    have hcX : 0 < psum X 0 c := by have := psum_strict X 0 0 c hx (by omega) (by omega); simpa using this
+    have hcY : 0 < psum Y 0 c := by have := psum_strict Y 0 0 c hy (by omega) (by omega); simpa using this
+    by_cases hs : s ≤ X.length
+    · by_cases hsc : s < c
+      · left
+        have := psum_strict X 0 s c hx hsc (by omega)
+        have := psum_strict Y 0 s c hy hsc (by omega)
+        omega
+      · right
+        have h1 := psum_diff_mono X Y h 0 0 c s (by omega) hs
+        have h2 : psum X 0 c ≤ psum X 0 s := by
+          rcases Nat.lt_or_ge c s with h | h
+          · exact Nat.le_of_lt (psum_strict X 0 c s hx h hs)
+          · have : c = s := by omega
+            subst this; exact Nat.le_refl _
+        omega
+    · left
+      rw [psum_out X 0 s (by omega), psum_out Y 0 s (by omega)]
+      omega
+
+theorem instrsize_mono (a b : Int) (h0 : 0 ≤ a) (h : a ≤ b) : instrsize a ≤ instrsize b := by
+  unfold instrsize
+  simp only [Extracted.instrsizeLimit1, Extracted.instrsizeLimit2, Extracted.instrsizeLimit3]
+  repeat' split
+  all_goals omega
+
+theorem instrsize_neg (a : Int) (h : a < 0) : instrsize a = 4 := by
+  unfold instrsize; simp [h]
+
+theorem instrsize_pos (a : Int) : 1 ≤ instrsize a := by
+  unfold instrsize; split <;> try split <;> try split <;> try split
+  all_goals omega
+
+theorem newArg_size_mono (v : Ver) (A B : List Nat) (hm : OffsMono A B) (s k : Nat) (rel : Bool) (hk : k + 1 < A.length) :
+    instrsize (newArgOf v A s k rel) ≤ instrsize (newArgOf v B s k rel) := by
+  unfold newArgOf
+  cases rel with
+  | false =>
+    simp only [Bool.false_eq_true, if_false]
+    have := hm.abs s
+    apply instrsize_mono
+    · split <;> omega
+    · split <;> omega
+  | true =>
+    simp only [if_true]
+    rcases hm.rel s (k + 1) (by omega) hk with ⟨h1, h2⟩ | ⟨h1, h2⟩
+    · have e1 : ((A.getD s 0 : Int) - A.getD (k + 1) 0) * (if v.is310 = true then 1 else 2) < 0 := by split <;> omega
+      have e2 : ((B.getD s 0 : Int) - B.getD (k + 1) 0) * (if v.is310 = true then 1 else 2) < 0 := by split <;> omega
+      rw [instrsize_neg _ e1, instrsize_neg _ e2]
+      exact Nat.le_refl _
+    · apply instrsize_mono
+      · split <;> omega
+      · split <;> omega
+
+/-- pointwise: widths under `as` ≤ widths under `bs`, operands that are not jumps equal -/
+def SzLE : List Instr → List Int → List Int → Prop
+  | i :: is, a :: as, b :: bs => sizeOfI i.nov a ≤ sizeOfI i.nov b ∧ (isJump i.arg = false → a = b) ∧ SzLE is as bs
+  | [], [], [] => True
+  | _, _, _ => False
+
+theorem SzLE.forall₂ : ∀ (is : List Instr) (as bs : List Int), SzLE is as bs → LeL (szs is as) (szs is bs) := by
+  intro is
+  induction is with
+  | nil => intro as bs h; cases as <;> cases bs <;> first | exact LeL.nil | simp_all [SzLE]
+  | cons i is ih =>
+    intro as bs h
+    cases as with
+    | nil => simp [SzLE] at h
+    | cons a as => cases bs with
+      | nil => simp [SzLE] at h
+      | cons b bs =>
+        simp only [SzLE] at h
+        simp only [szs, List.zip_cons_cons, List.map_cons]
+        exact LeL.cons h.1 (ih as bs h.2.2)
+
+theorem SzLE.len : ∀ (is : List Instr) (as bs : List Int), SzLE is as bs → is.length = as.length ∧ is.length = bs.length := by
+  intro is
+  induction is with
+  | nil => intro as bs h; cases as <;> cases bs <;> simp_all [SzLE]
+  | cons i is ih =>
+    intro as bs h
+    cases as with
+    | nil => simp [SzLE] at h
+    | cons a as => cases bs with
+      | nil => simp [SzLE] at h
+      | cons b bs =>
+        simp only [SzLE] at h
+        have := ih as bs h.2.2
+        simp [this.1, ← this.2]
+
+theorem szs_pos (is : List Instr) (as : List Int) : ∀ x ∈ szs is as, 1 ≤ x := by
+  intro x hx
+  simp only [szs, List.mem_map] at hx
+  obtain ⟨p, _, rfl⟩ := hx
+  exact sizeOfI_pos _ _
+
+theorem sizeOfI_noOverride (nov : Option Nat) (a : Int) (h : noOverride nov = true) : sizeOfI nov a = instrsize a := by
+  unfold noOverride at h; unfold sizeOfI
+  split <;> simp_all
+
+theorem sizeOfI_override (nov : Option Nat) (a b : Int) (h : noOverride nov = false) : sizeOfI nov a = sizeOfI nov b := by
+  unfold noOverride at h; unfold sizeOfI
+  split <;> simp_all
+
+/-- one pass is monotone in the widths -/
+theorem newArgs_mono (v : Ver) (starts A B : List Nat) (hm : OffsMono A B) : ∀ (is : List Instr) (as bs : List Int) (k : Nat),
+    SzLE is as bs → k + is.length < A.length → SzLE is (newArgs v starts A is as k) (newArgs v starts B is bs k) := by
+  intro is
+  induction is with
+  | nil => intro as bs k h _; cases as <;> cases bs <;> simp_all [SzLE, newArgs]
+  | cons i is ih =>
+    intro as bs k h hk
+    cases as with
+    | nil => simp [SzLE] at h
+    | cons a as => cases bs with
+      | nil => simp [SzLE] at h
+      | cons b bs =>
+        simp only [SzLE] at h
+        simp only [List.length_cons] at hk
+        simp only [newArgs, SzLE]
+        refine ⟨?_, ?_, ih as bs (k + 1) h.2.2 (by omega)⟩
+        · cases hia : i.arg with
+          | jump t rel =>
+            simp only
+            cases hno : noOverride i.nov with
+            | true =>
+              rw [sizeOfI_noOverride _ _ hno, sizeOfI_noOverride _ _ hno]
+              exact newArg_size_mono v A B hm _ k rel (by omega)
+            | false => exact Nat.le_of_eq (sizeOfI_override _ _ _ hno)
+          | _ => simp only; rw [h.2.1 (by simp [hia, isJump])]; exact Nat.le_refl _
+        · intro hnj
+          cases hia : i.arg with
+          | jump t rel => simp [hia, isJump] at hnj
+          | _ => simp only; exact h.2.1 hnj
+
+/-- remaining room for growth: jumps without a width override can still grow up to four code units -/
+def slack : List Instr → List Int → Nat
+  | i :: is, a :: as => (if isJump i.arg && noOverride i.nov then 4 - instrsize a else 0) + slack is as
+  | _, _ => 0
+
+theorem slack_le : ∀ (is : List Instr) (as : List Int), slack is as ≤ 3 * (is.filter fun i => isJump i.arg).length := by
+  intro is
+  induction is with
+  | nil => intro as; simp [slack]
+  | cons i is ih =>
+    intro as
+    cases as with
+    | nil => simp [slack]
+    | cons a as =>
+      simp only [slack, List.filter_cons]
+      have := ih as
+      have h1 := instrsize_pos a
+      cases hj : isJump i.arg <;> simp <;> (try split) <;> omega
+
+theorem slack_step (v : Ver) (starts offs : List Nat) : ∀ (is : List Instr) (as : List Int) (k : Nat),
+    SzLE is as (newArgs v starts offs is as k) →
+    slack is (newArgs v starts offs is as k) + (changed v starts offs is as k).toNat ≤ slack is as := by
+  intro is
+  induction is with
+  | nil => intro as k _; cases as <;> simp [slack, newArgs, changed]
+  | cons i is ih =>
+    intro as k h
+    cases as with
+    | nil => simp [SzLE, newArgs] at h
+    | cons a as =>
+      cases i with
+      | mk op arg nov ln lo =>
+      simp only [newArgs, SzLE, Instr.arg, Instr.nov] at h
+      have ih' := ih as (k + 1) h.2.2
+      simp only [newArgs, slack, changed, Instr.arg, Instr.nov]
+      cases arg with
+      | jump t rel =>
+        simp only at h
+        simp only [isJump, Bool.true_and]
+        by_cases hno : noOverride nov = true
+        · have h1 := h.1
+          rw [sizeOfI_noOverride _ _ hno, sizeOfI_noOverride _ _ hno] at h1
+          rw [sizeOfI_noOverride _ _ hno]
+          have h4 := instrsize_le (newArgOf v offs (starts.getD t 0) k rel)
+          simp only [hno, if_true, Bool.true_and]
+          by_cases hne : instrsize a = instrsize (newArgOf v offs (starts.getD t 0) k rel)
+          · simp only [hne, bne_self_eq_false, Bool.or_false]
+            rw [hne] at h1
+            omega
+          · have : (instrsize a != instrsize (newArgOf v offs (starts.getD t 0) k rel)) = true := by simpa using hne
+            simp only [this, Bool.or_true, Bool.toNat_true]
+            have : (changed v starts offs is as (k + 1)).toNat ≤ 1 := Bool.toNat_le _
+            omega
+        · have hno' : noOverride nov = false := by simpa using hno
+          simp only [hno', Bool.false_eq_true, if_false, Bool.false_and, Bool.or_false]
+          omega
+      | _ => simp only [isJump, Bool.false_and, Bool.false_eq_true, if_false, Bool.or_false]; omega
+
+/-- the state of the loop between passes: the next pass can only widen instructions -/
+def Growing (v : Ver) (instrs : List Instr) (starts : List Nat) (A : List Int) : Prop :=
+  SzLE instrs A (newArgs v starts (prefixSums (szs instrs A) 0) instrs A 0)
+
+theorem growing_step (v : Ver) (instrs : List Instr) (starts : List Nat) (A : List Int) (h : Growing v instrs starts A) :
+    Growing v instrs starts (newArgs v starts (prefixSums (szs instrs A) 0) instrs A 0) := by
+  unfold Growing at *
+  have hm := offsMono_prefixSums _ _ (SzLE.forall₂ _ _ _ h) (szs_pos _ _) (szs_pos _ _)
+  apply newArgs_mono v starts _ _ hm instrs _ _ 0 h
+  rw [prefixSums_length]
+  have := (SzLE.len _ _ _ h).1
+  simp only [szs, List.length_map, List.length_zip, ← this]
+  omega
+
+/-- **The operand-width loop terminates.**  Started from a state in which the next pass can only widen instructions
+    (as the initial state is: every jump operand starts at 1), with fuel exceeding the remaining room for growth, the
+    loop never runs out of fuel: it returns, or raises the `KeyError` of a jump to a missing block. -/
+theorem relax_terminates (v : Ver) (instrs : List Instr) (starts : List Nat) : ∀ (fuel : Nat) (A : List Int),
+    Growing v instrs starts A → slack instrs A < fuel → ∀ e, relax v instrs starts fuel A = .error e → e = .raised := by
+  intro fuel
+  induction fuel with
+  | zero => intro A _ h; omega
+  | succ f ih =>
+    intro A hg hs e he
+    have hl := (SzLE.len _ _ _ hg).1
+    rw [relax] at he
+    cases hp : relaxPass v instrs starts A with
+    | error e' =>
+      rw [hp] at he
+      simp only [bind, Except.bind, Except.error.injEq] at he
+      subst he
+      rw [relaxPass_eq] at hp
+      exact relaxGo_err _ _ _ _ _ _ _ hp
+    | ok r =>
+      rw [hp] at he
+      simp only [bind, Except.bind] at he
+      rw [relaxPass_eq] at hp
+      have ht := relaxGo_ok_targets v starts _ instrs A 0 _ hl hp
+      rw [relaxGo_eq v starts _ instrs A 0 ht] at hp
+      simp only [Except.ok.injEq] at hp
+      subst hp
+      simp only at he
+      have hstep := slack_step v starts (prefixSums (szs instrs A) 0) instrs A 0 hg
+      split at he
+      · next hc =>
+        rw [hc] at hstep
+        simp only [Bool.toNat_true] at hstep
+        exact ih _ (growing_step v instrs starts A hg) (by omega) e he
+      · simp [pure, Except.pure] at he
+
+/-- every jump operand is 1, as `from_arg` leaves it -/
+def JumpsOne : List Instr → List Int → Prop
+  | i :: is, a :: as => (isJump i.arg = true → a = 1) ∧ JumpsOne is as
+  | [], [] => True
+  | _, _ => False
+
+theorem growing_init (v : Ver) (starts offs : List Nat) : ∀ (is : List Instr) (as : List Int) (k : Nat), JumpsOne is as →
+    SzLE is as (newArgs v starts offs is as k) := by
+  intro is
+  induction is with
+  | nil => intro as k h; cases as <;> simp_all [JumpsOne, SzLE, newArgs]
+  | cons i is ih =>
+    intro as k h
+    cases as with
+    | nil => simp [JumpsOne] at h
+    | cons a as =>
+      simp only [JumpsOne] at h
+      simp only [newArgs, SzLE]
+      refine ⟨?_, ?_, ih as (k + 1) h.2⟩
+      · cases hia : i.arg with
+        | jump t rel =>
+          simp only
+          have ha : a = 1 := h.1 (by simp [hia, isJump])
+          subst ha
+          cases hno : noOverride i.nov with
+          | true =>
+            rw [sizeOfI_noOverride _ _ hno, sizeOfI_noOverride _ _ hno]
+            have : instrsize 1 = 1 := by simp [instrsize, Extracted.instrsizeLimit1]
+            rw [this]; exact instrsize_pos _
+          | false => exact Nat.le_of_eq (sizeOfI_override _ _ _ hno)
+        | _ => simp only; exact Nat.le_refl _
+      · intro hnj
+        cases hia : i.arg with
+        | jump t rel => simp [hia, isJump] at hnj
+        | _ => rfl
+
+theorem resolveArgs_jumpsOne (tp : Option Function) (fv : List PStr) : ∀ (is : List Instr) (st st' : EncSt) (as : List Int),
+    resolveArgs tp fv st is = .ok (st', as) → JumpsOne is as := by
+  intro is
+  induction is with
+  | nil => intro st st' as h; simp [resolveArgs, pure, Except.pure] at h; rw [h.2]; trivial
+  | cons i is ih =>
+    intro st st' as h
+    rw [resolveArgs] at h
+    obtain ⟨⟨st1, a⟩, h1, h⟩ := bind_ok h
+    obtain ⟨⟨st2, r⟩, h2, h⟩ := bind_ok h
+    simp only [pure, Except.pure, Except.ok.injEq, Prod.mk.injEq] at h
+    rw [← h.2]
+    simp only [JumpsOne]
+    refine ⟨?_, ih _ _ _ h2⟩
+    intro hj
+    cases hia : i.arg with
+    | jump t rel =>
+      rw [hia] at h1
+      simp [fromArg, pure, Except.pure] at h1
+      exact h1.2.symm
+    | _ => simp [hia, isJump] at hj
+
 end CDV
